@@ -115,6 +115,32 @@ func VerifC05_Range() {
 		vh.Assert(bytes.Equal(got, tks[0]) || bytes.Equal(got, tks[1]), "nothing that was never written is listed")
 	}
 
+	// the streaming and the callback variants list the same keys in the same order; Exists agrees with the point read
+	kch := make(storage.KeyChan, 16)
+	vh.Assert(db.SendKeysInRange(ctx, lo, hi, kch) == nil, "SendKeysInRange succeeds")
+	si := 0
+	for {
+		fk := <-kch
+		if fk == nil {
+			break
+		}
+		tk, err := storage.TKeyFromKey(fk)
+		vh.Assert(err == nil && si < len(keys) && bytes.Equal(tk, keys[si]), "the streamed keys are the listed keys, in the same order")
+		si++
+	}
+	vh.Assert(si == len(keys), "the stream carries every listed key")
+	pi := 0
+	perr := db.ProcessRange(ctx, lo, hi, &storage.ChunkOp{}, func(c *storage.Chunk) error {
+		vh.Assert(c != nil && c.TKeyValue != nil && pi < len(kvs) && bytes.Equal(c.K, kvs[pi].K) && bytes.Equal(c.V, kvs[pi].V), "the callback variant is handed the listed key-value pairs, in order")
+		pi++
+		return nil
+	})
+	vh.Assert(perr == nil && pi == len(kvs), "the callback variant visits every listed pair")
+	for k := 0; k < 2; k++ {
+		ex, err := db.Exists(ctx, tks[k])
+		vh.Assert(err == nil && ex == (before[q][k] != nil), "Exists agrees with the point read")
+	}
+
 	// delete the interval at q
 	vh.Assert(db.DeleteRange(ctx, lo, hi) == nil, "DeleteRange succeeds")
 	for node := 1; node <= n; node++ {
